@@ -50,7 +50,7 @@ def secret_of(ctx, e, want, cls, key, desc, curve=None, ints=True):
             outs.append(type(ex).__name__)
         except Exception as ex:
             outs.append("raised %s: %s" % (type(ex).__name__, ex))
-    ctx.case(cls, key=key)
+    ctx.case(cls, key=key, sample=dict(what=desc, expected=want if not isinstance(want, int) else hex(want), library=[o if not isinstance(o, (int, bytes)) else (hex(o) if isinstance(o, int) else o.hex()) for o in outs]) if ctx.want(cls) else None)
     if isinstance(want, int):
         L = (int(curve.curve.p()).bit_length() + 7) // 8
         wb = want.to_bytes(L, "big")
